@@ -27,7 +27,7 @@ FORMULAS = ["Co30Fe70", "Co", "Au", "NaCl", "SiO2", "Al2O3", "Fe", "Cu", "CaCO3"
             "I2", "Ba", "Ce", "Pr", "Nd", "Tb", "Er", "Tm", "Yb", "W", "Os", "Hg", "Tl", "Pb", "Bi", "Th", "U",
             "Lu", "Cs", "Co[59]", "H2O", "C"]
 REST_LISTS = [[0, 1, 24, 360], [0], [1], [24, 1], [0.5], [2], [360, 24, 0, 1], [1, 24, 360], [24], [0.25, 3], [0.0, 5.5]]
-FACTORS = [1e-9, 1e-6, 1e-3, 0.03, 0.3, 0.45, 0.6, 0.9, 0.999, 1.001, 1.5, 3.0, 10.0]
+FACTORS = [1e-9, 1e-6, 1e-3, 0.03, 0.3, 0.45, 0.6, 0.9, 0.999, 1.001, 1.5, 3.0, 10.0, 0.9995, 0.99999]
 
 
 def products(sample):
@@ -220,7 +220,7 @@ def main(argv):
         lists = REST_LISTS[:4] + rng.sample(REST_LISTS[4:], 2) + [sorted(10 ** rng.uniform(-2, 3) for _ in range(rng.randrange(1, 4)))]
         if n > 12:
             lists = REST_LISTS + lists[-1:]
-        facs = [FACTORS[0], FACTORS[2]] + rng.sample(FACTORS[3:], 6 if n <= 12 else len(FACTORS) - 3)
+        facs = [FACTORS[0], FACTORS[2], 0.9995] + rng.sample(FACTORS[3:], 6 if n <= 12 else len(FACTORS) - 3)   # 0.9995: just under A(0)
         c, m = sample_cases(rng, fails, formula, mass, envp, exposure, lists, sorted(facs))
         cases += c
         meta += m
